@@ -35,17 +35,42 @@ def setup(ex: Exec, ch: Choices, info: dict[str, Any]) -> None:
         # sweep positions: up to three delivery steps of this run, each with one or two sweeps in a row
         horizon = max(4, int(info.get("ref_steps", 40)))
         positions = {ch.pick("sweep.at", horizon): 1 + ch.pick("sweep.n", 2) for _ in range(1 + ch.pick("sweep.k", 3))}
-        info["sweep_positions"] = {str(k): v for k, v in positions.items()}
+        # every third healthy run sweeps before *every* delivery step (the windows that matter are one step wide:
+        # between StartStage(parent) and StartStage(before-stage), between a claim and the first StartTask, ...)
+        # (a window of 24 consecutive steps: every sweep may add a StartStage for a waiting stage, which re-queues
+        # itself while it waits, so sweeping at every step of a whole run grows the queue quadratically)
+        placement = ch.pick("sweep.every", 3)       # 0: seeded positions, 1: window of consecutive steps, 2: after message types
+        every = placement == 1
+        w0 = ch.pick("sweep.from", horizon) if every else 0
+        # placement 2: a sweep right after every handling of a seeded subset of message types (at most 40 per run) -
+        # the one-step-wide windows open right after a StartStage / CompleteStage / ContinueParentStage / JumpToStage
+        after_types: set[str] = set()
+        if placement == 2:
+            for t in ("StartStage", "CompleteStage", "ContinueParentStage", "StartTask", "CompleteTask", "RunTask", "JumpToStage",
+                      "SkipStage"):
+                if ch.flip("sweep.after." + t, 0.4):
+                    after_types.add(t)
+            if not after_types:
+                after_types.add("StartStage")
+        info["sweep_positions"] = (f"every step in [{w0},{w0 + 24})" if every else
+                                   "after " + ",".join(sorted(after_types)) if placement == 2 else
+                                   {str(k): v for k, v in positions.items()})
         step = [0]
+        seen_log = [0]
 
         def between(eng: Any) -> None:
-            n = positions.get(step[0], 0)
+            if placement == 2:
+                new = w.handler_log[seen_log[0]:]
+                seen_log[0] = len(w.handler_log)
+                n = 1 if info["stats"]["sweeps"] < 40 and any(x[1] in after_types for x in new) else 0
+            else:
+                n = (1 if w0 <= step[0] < w0 + 24 else 0) if every else positions.get(step[0], 0)
             step[0] += 1
             for _ in range(n):
                 prev = w.ctx.get(0, ("idle", ""))
                 w.ctx[0] = ("recovery", "")
                 try:
-                    rs = w.processor.run_recovery()
+                    rs = w.run_sweep()
                 finally:
                     w.ctx[0] = prev
                 info["stats"]["sweeps"] += 1
@@ -151,7 +176,7 @@ def w_sweeper(ch: Choices, info: dict[str, Any]) -> list[Any]:
                 if world.sched.stopping:
                     return
                 world.ctx[wk.wid] = ("recovery", "")
-                world.processor.run_recovery()
+                world.run_sweep()
                 world.fault("recovery_sweep")
                 info["stats"]["sweeps"] += 1
 
